@@ -106,12 +106,17 @@ theorem answered_then_normal (cfg : Cfg) (kinds : List Bool) (s : St) (hr : Reac
     have : s.hStage = 1 ∨ s.hStage = 2 := by omega
     rcases this with h | h <;> simp [h, he] at hf h1
 
+/-- the answer relay's two statements (`active := 0`, `out <- rsp`), in the order of the source -/
+def handover (cfg : Cfg) : List Label :=
+  if cfg.resetFirst then [.clear, .forward] else [.forward, .clear]
+
 /-- the harness's two activation statements, in the order of the source -/
 def activation (cfg : Cfg) : List Label :=
   if cfg.early then [.harnessActive, .harnessCall] else [.harnessCall, .harnessActive]
 
 def d7pre (cfg : Cfg) : List Label := .activate :: activation cfg ++ [.taskTake, .reqStart, .arm 0, .deliver 0]
-def d7post : List Label := [.transform 0, .taskTake, .move 0, .answer, .respond, .forward, .hostTake, .clear, .decrement]
+def d7post (cfg : Cfg) : List Label :=
+  [.transform 0, .taskTake, .move 0, .answer, .respond] ++ handover cfg ++ [.hostTake, .decrement]
 
 /-- the witness run, as a computation -/
 def d7check (cfg : Cfg) : Bool :=
@@ -121,14 +126,14 @@ def d7check (cfg : Cfg) : Bool :=
     (match s1.ls[0]? with
      | some l => l.interrupting && l.phase == .armed && decide (0 < l.inbox)
      | none => false) &&
-    (match run cfg s1 (.catchTake 0 :: d7post) with
+    (match run cfg s1 (.catchTake 0 :: d7post cfg) with
      | some s2 => s2.normal == 1 && contsAt s2 0 == 1 && quiet cfg s2
      | none => false)
   | none => false
 
 theorem d7check_all : ∀ cfg : Cfg, d7check cfg = true := by
-  intro ⟨g, o, r, sh, e⟩
-  cases g <;> cases o <;> cases r <;> cases sh <;> cases e <;> decide
+  intro ⟨g, o, r, sh, e, rf⟩
+  cases g <;> cases o <;> cases r <;> cases sh <;> cases e <;> cases rf <;> decide
 
 /-- D7, for EVERY value of the extracted facts: one interrupting boundary event, the event arrives while the task
 waits, the exception flow continues — and the normal flow continues as well when the task is answered afterwards -/
@@ -145,11 +150,11 @@ theorem C10_counterexample_interrupting (cfg : Cfg) : ¬ boundary_interrupting c
     | none => simp [hl0] at hl
     | some l =>
       simp only [hl0, Bool.and_eq_true, beq_iff_eq, decide_eq_true_eq] at hl
-      cases hr2 : run cfg s1 (.catchTake 0 :: d7post) with
+      cases hr2 : run cfg s1 (.catchTake 0 :: d7post cfg) with
       | none => simp [hr2] at h2
       | some s2 =>
         simp only [hr2, Bool.and_eq_true, beq_iff_eq] at h2
-        have := (h [true] s1 0 l (reach_of_run h1) hreq hl0 hl.1.1 hl.1.2 hl.2 d7post s2 hr2).2.2
+        have := (h [true] s1 0 l (reach_of_run h1) hreq hl0 hl.1.1 hl.1.2 hl.2 d7post cfg s2 hr2).2.2
         omega
 
 /-- with the once, at quiescence every listener is unstarted, armed, or has moved on: none is stuck between the
@@ -232,8 +237,8 @@ def d2check (cfg : Cfg) : Bool :=
   | none => false
 
 theorem d2check_all : ∀ cfg : Cfg, d2check cfg = true := by
-  intro ⟨g, o, r, sh, e⟩
-  cases g <;> cases o <;> cases r <;> cases sh <;> cases e <;> decide
+  intro ⟨g, o, r, sh, e, rf⟩
+  cases g <;> cases o <;> cases r <;> cases sh <;> cases e <;> cases rf <;> decide
 
 /-- for every value of the facts: two events on a non-interrupting boundary event while the host waits continue the
 exception flow once, not twice (the catch event is not re-armed) -/
@@ -306,7 +311,7 @@ theorem inert_no_reaction (cfg : Cfg) (hg : cfg.gated = true) (kinds : List Bool
     · rw [h] at hrun; simp only [Option.bind_some] at hrun; exact ih hrun
 
 def ungatedRun (cfg : Cfg) : List Label :=
-  .activate :: activation cfg ++ [.taskTake, .reqStart, .arm 0, .answer, .respond, .forward, .hostTake, .clear, .decrement]
+  .activate :: activation cfg ++ [.taskTake, .reqStart, .arm 0, .answer, .respond] ++ handover cfg ++ [.hostTake, .decrement]
 
 def ungatedCheck (cfg : Cfg) : Bool :=
   match run cfg (init [false]) (ungatedRun cfg) with
@@ -317,8 +322,8 @@ def ungatedCheck (cfg : Cfg) : Bool :=
   | none => false
 
 theorem ungatedCheck_all : ∀ cfg : Cfg, cfg.gated = false → ungatedCheck cfg = true := by
-  intro ⟨g, o, r, sh, e⟩ h
-  cases g <;> cases o <;> cases r <;> cases sh <;> cases e <;> first | decide | (simp at h)
+  intro ⟨g, o, r, sh, e, rf⟩ h
+  cases g <;> cases o <;> cases r <;> cases sh <;> cases e <;> cases rf <;> first | decide | (simp at h)
 
 /-- not gated: an event delivered after the host completed continues the exception flow -/
 theorem C10_counterexample_ungated (cfg : Cfg) (hg : cfg.gated = false) : ¬ boundary_inert_after_completion cfg := by
@@ -342,7 +347,7 @@ theorem inert_wg_unshared (cfg : Cfg) (hs : cfg.share = false) (s : St) : wgList
   simp [wgListeners, hs]
 
 def d8run (cfg : Cfg) : List Label :=
-  .activate :: activation cfg ++ [.taskTake, .reqStart, .arm 0, .answer, .respond, .forward, .hostTake, .clear, .decrement]
+  .activate :: activation cfg ++ [.taskTake, .reqStart, .arm 0, .answer, .respond] ++ handover cfg ++ [.hostTake, .decrement]
 
 def d8check (cfg : Cfg) : Bool :=
   match run cfg (init [false]) (d8run cfg) with
@@ -350,8 +355,8 @@ def d8check (cfg : Cfg) : Bool :=
   | none => false
 
 theorem d8check_all : ∀ cfg : Cfg, cfg.share = true → d8check cfg = true := by
-  intro ⟨g, o, r, sh, e⟩ h
-  cases g <;> cases o <;> cases r <;> cases sh <;> cases e <;> first | decide | (simp at h)
+  intro ⟨g, o, r, sh, e, rf⟩ h
+  cases g <;> cases o <;> cases r <;> cases sh <;> cases e <;> cases rf <;> first | decide | (simp at h)
 
 /-- D8: the listener flows share the instance wait group: a boundary event that never fired keeps a token alive
 after the host completed, and the instance cannot complete -/
@@ -392,7 +397,7 @@ theorem armed_listener_counts (cfg : Cfg) (hs : cfg.share = true) (s : St) (l : 
 
 def noOnceRun (cfg : Cfg) : List Label :=
   .activate :: activation cfg ++ [.taskTake, .reqStart, .arm 0, .arm 1, .answer, .respond, .decrement, .deliver 0, .deliver 1,
-   .catchTake 0, .catchTake 1, .transform 0, .taskTake, .move 0, .transform 1, .forward, .clear, .hostTake]
+   .catchTake 0, .catchTake 1, .transform 0, .taskTake, .move 0, .transform 1] ++ handover cfg ++ [.hostTake]
 
 def noOnceCheck (cfg : Cfg) : Bool :=
   match run cfg (init [true, true]) (noOnceRun cfg) with
@@ -402,8 +407,8 @@ def noOnceCheck (cfg : Cfg) : Bool :=
   | none => false
 
 theorem noOnceCheck_all : ∀ cfg : Cfg, cfg.once = false → noOnceCheck cfg = true := by
-  intro ⟨g, o, r, sh, e⟩ h
-  cases g <;> cases o <;> cases r <;> cases sh <;> cases e <;> first | decide | (simp at h)
+  intro ⟨g, o, r, sh, e, rf⟩ h
+  cases g <;> cases o <;> cases r <;> cases sh <;> cases e <;> cases rf <;> first | decide | (simp at h)
 
 /-- without the once: two interrupting boundary events fire while the answer races them; the first cancel is accepted
 (the request goroutine has already left the counter), the activity's run loop exits, and the second listener waits
@@ -439,8 +444,8 @@ def strandCheck (cfg : Cfg) : Bool :=
   | none => false
 
 theorem strandCheck_all : ∀ cfg : Cfg, (cfg.early = true ∨ cfg.gated = false) → strandCheck cfg = true := by
-  intro ⟨g, o, r, sh, e⟩ h
-  cases g <;> cases o <;> cases r <;> cases sh <;> cases e <;> first | decide | (simp at h)
+  intro ⟨g, o, r, sh, e, rf⟩ h
+  cases g <;> cases o <;> cases r <;> cases sh <;> cases e <;> cases rf <;> first | decide | (simp at h)
 
 /-- the harness is active before the activity has its first message (or events are not gated at all): an
 interrupting event in that window puts the cancel message FIRST into the activity's inbox; the freshly started run
@@ -554,13 +559,13 @@ theorem C10_partial (cfg : Cfg) (ho : cfg.once = true) (hg : cfg.gated = true) :
 /-! ## Non-vacuity: the hypotheses of the implications above are met by concrete reachable states -/
 
 def exPre : St := (run Cfg.code (init [true]) (d7pre Cfg.code)).getD (init [])
-def exPost : St := (run Cfg.code exPre (.catchTake 0 :: d7post)).getD (init [])
+def exPost : St := (run Cfg.code exPre (.catchTake 0 :: d7post cfg)).getD (init [])
 
 /-- `interrupting_partial`, `boundary_interrupting`: a reachable state in which the host waits for its answer and an
 armed interrupting listener has an event in its inbox; the run continues to a quiescent state -/
 example : Reach Cfg.code [true] exPre ∧ exPre.req = .pending ∧
     exPre.ls[0]? = some { interrupting := true, phase := .armed, inbox := 1, got := 1 } ∧
-    run Cfg.code exPre (.catchTake 0 :: d7post) = some exPost ∧ quiet Cfg.code exPost = true ∧
+    run Cfg.code exPre (.catchTake 0 :: d7post cfg) = some exPost ∧ quiet Cfg.code exPost = true ∧
     contsAt exPost 0 = 1 ∧ exPost.normal = 1 :=
   ⟨reach_of_run (tr := d7pre Cfg.code) (by decide), by decide, by decide, by decide, by decide, by decide, by decide⟩
 
@@ -586,6 +591,6 @@ example : Reach Cfg.code [false] exDone ∧ quiet Cfg.code exDone = true ∧ exD
 
 /-- `exception_progress`, `answered_then_normal`: see the two examples above (quiescent, answered). The cancel in the
 D7 witness is REFUSED by the code's facts: -/
-example : ((run Cfg.code (init [true]) (d7pre Cfg.code ++ .catchTake 0 :: d7post)).map (·.verdicts)) = some [false] := by decide
+example : ((run Cfg.code (init [true]) (d7pre Cfg.code ++ .catchTake 0 :: d7post cfg)).map (·.verdicts)) = some [false] := by decide
 
 end Bpmn.Props.C10
